@@ -9,8 +9,9 @@
   tree tokens (prefix order):  m<hex>                  a message (its bytes, in an exact-size block)
                                B<16 hex tt>:<n>:<cap>  bundle of the next n trees, built into a
                                                        block of <cap> bytes (pre-filled 0xAA)
-  Output of C:  r=<ret> b=<block> [p=.. n=.. tt=.. len=.. d=<decomposition>] [nz=..]
-    block: hex, `z<n>` for n zero bytes, `-` for the empty block
+  Output of C:  r=<ret> b=<bytes> [p=.. n=.. tt=.. len=.. d=<decomposition>] [nz=..]
+    bytes: the `ret` bytes written; after a failed call (ret = 0) the whole block — hex, `z<n>` for
+    n zero bytes, `-` for the empty block
     decomposition:  m<hex>  |  B<tt>[<off>:<size>:<rtosc_message_length>:<decomposition>,…]
   If the model predicts an out-of-bounds store or read the line is the sanitizer's verdict
   `crash:asan:heap-buffer-overflow`; a loop that does not terminate is `crash:signal:27`
@@ -131,8 +132,8 @@ def stepC (toks : List String) : String :=
   match parseTree toks with
   | some (.bundle tt cap kids, []) => render do
     let (buf, ret) ← build (.bundle tt cap kids)
-    let head := s!"r={ret} b={hexz buf}"
-    if ret > cap then return head ++ " ret-exceeds-len"
+    if ret > cap then return s!"r={ret} ret-exceeds-len"
+    let head := s!"r={ret} b={if ret = 0 then hexz buf else toHex (buf.take ret)}"
     if ret ≥ 16 then
       let r ← readers buf ret
       if cap ≥ ret + 4 then
@@ -158,8 +159,9 @@ def stepA (maxLen : Nat) (toks : List String) : String :=
         buf := r.buf
         len := r.ret
         rets := rets ++ [toString len]
-      let head := s!"r={ret0} a={if rets.isEmpty then "-" else ",".intercalate rets} b={hexz buf}"
-      if len > cap then return head ++ " ret-exceeds-len"
+      let head0 := s!"r={ret0} a={if rets.isEmpty then "-" else ",".intercalate rets}"
+      if len > cap then return head0 ++ " ret-exceeds-len"
+      let head := head0 ++ s!" b={if len = 0 then hexz buf else toHex (buf.take len)}"
       if len ≥ 16 then
         let r ← readers buf len
         return head ++ r
